@@ -38,14 +38,18 @@ def vet(wt, k, sid, prop, needs):
     json.dump(meta, open(os.path.join(dst, 'meta.json'), 'w'), indent=1)
     return 0
 def run(sid, tier, budget, props):
+    """Checks run against a scratch copy of /repo with the patch applied
+    (VERIF_REPO), so that /repo itself and background runs are undisturbed."""
+    import tempfile
     dst = os.path.join(V, 'seeded', sid)
     meta = json.load(open(os.path.join(dst, 'meta.json')))
     props = props or [meta['breaks_property']]
-    assert sh('git status --short', cwd='/repo').stdout.strip() == '', '/repo dirty'
-    r = sh(f'git apply {dst}/patch.diff', cwd='/repo'); assert r.returncode == 0, r.stderr
+    d = tempfile.mkdtemp(prefix='desper-seed-', dir='/var/tmp')
     try:
+        sh(['cp', '-r', '/repo/desper', '/repo/tests', d])
+        r = sh(f'git apply {dst}/patch.diff', cwd=d); assert r.returncode == 0, r.stderr
         for p in props:
-            env = dict(os.environ, VERIF_BUDGET_S=str(budget), VERIF_NO_EVIDENCE='1', VERIF_REPLAY_DIR=f'/var/tmp/seeded-replays')
+            env = dict(os.environ, VERIF_REPO=d, VERIF_BUDGET_S=str(budget), VERIF_NO_EVIDENCE='1', VERIF_REPLAY_DIR=os.path.join(d, 'replays'))
             c = sh([PY, os.path.join(V, 'run.py'), p, '--tier', tier], env=env)
             viol = [l for l in c.stdout.splitlines() if l.startswith('violation:')]
             status = {0: 'MISSED', 1: 'CAUGHT'}.get(c.returncode, f'EXIT{c.returncode}')
@@ -53,7 +57,7 @@ def run(sid, tier, budget, props):
             print(sid, p, tier, status, (viol[0][:230] if viol else ''))
             if c.returncode not in (0, 1): print(c.stdout[-800:], c.stderr[-800:])
     finally:
-        sh('git checkout -- .', cwd='/repo'); shutil.rmtree('/var/tmp/seeded-replays', ignore_errors=True)
+        shutil.rmtree(d, ignore_errors=True)
     json.dump(meta, open(os.path.join(dst, 'meta.json'), 'w'), indent=1)
 a = sys.argv[1:]
 if a[0] == 'vet': sys.exit(vet(a[1], a[2], a[3], a[4], a[5]))
